@@ -2324,6 +2324,68 @@ def rule_reuse(prog):
                 out.add("parser::utility::affected", label, None, c.loc(atoms[0]["sp"]), "the `if` that guards the reuse exit was not found for this test")
             else:
                 out.add("parser::utility::affected", label, v_, c.loc(atoms[0]["sp"]), (why + "; " if why else "") + expl, (tag,))
+    # ---- (seqwrap): a parser that is handed an old node and is followed by further parsers of a sequence (`terminated(|i| Expression::parse(old, i),
+    # peek(look_ahead::arg))`) can fail *behind* a successfully reused node.  The list combinators re-parse an element only on an `Affected`
+    # error - any other error ends the list - so such a sequence runs under `affected(..)`: in the function itself, or at every place that
+    # hands the function an old node.
+    SEQ_ = ("nom::sequence::terminated", "nom::sequence::pair", "nom::sequence::tuple", "nom::sequence::separated_pair", "nom::sequence::delimited",
+            "nom::sequence::preceded")
+    AFF_P = aff["p"]
+    pfiles_ = [b for b in c.bodies if (c.file_of(b["sp"]).endswith("src/parser.rs") or "/parser/" in c.file_of(b["sp"])) and "/tests" not in c.file_of(b["sp"])
+               and b["k"] in ("fn", "assoc_fn")]
+
+    def _none(e_):
+        e_ = hir.strip_ref(e_)
+        return e_.get("k") == "Path" and last(e_["res"].get("ctor_of") or "") == "None"
+
+    def _under_aff(parents_):
+        return any(p_.get("k") == "Call" and (hir.callee(p_) or "") == AFF_P for p_ in parents_)
+
+    n_seq = 0
+    for fb in pfiles_:
+        pids_ = [q_["id"] if q_.get("k") == "Binding" else None for q_ in fb["params"]]
+        for x, parents in hir.walk(fb["body"]):
+            if x.get("k") != "Call" or not x.get("args") or not ((hir.path_def(x["f"]) or {}).get("p") or "").endswith("parser::Parser::parse"):
+                continue
+            if _none(x["args"][0]) or _under_aff(parents):
+                continue
+            # is the call an element of a sequence that has a later element?
+            later = False
+            chain = list(parents) + [x]
+            for i_, p_ in enumerate(chain[:-1]):
+                if p_.get("k") == "Call" and any((hir.callee(p_) or "").startswith(s_) for s_ in SEQ_):
+                    els_ = list(p_["args"])
+                    if len(els_) == 1 and hir.strip(els_[0]).get("k") == "Tup":
+                        els_ = hir.strip(els_[0])["es"]
+                    pos_ = next((j_ for j_, e_ in enumerate(els_) if any(y is x for y in hir.nodes(e_))), None)
+                    if pos_ is not None and pos_ < len(els_) - 1:
+                        later = True
+            if not later:
+                continue
+            n_seq += 1
+            # where does the old node come from?
+            pl_ = hir.path_local(hir.strip_ref(x["args"][0]))
+            j_ = pids_.index(pl_["id"]) if pl_ and pl_["id"] in pids_ else None
+            if j_ is None:
+                out.add(fb["d"], "a sequence behind a reused node runs under affected(..)", None if pl_ else False, c.loc(x["sp"]),
+                        "an old node is handed to the first parser of a sequence outside affected(..)", ("seqwrap",))
+                continue
+            bad_site = None
+            n_sites = 0
+            for cb in pfiles_:
+                for y, yparents in hir.walk(cb["body"]):
+                    if y.get("k") == "Call" and hir.callee(y) == fb["p"] and j_ < len(y["args"]):
+                        n_sites += 1
+                        if not _none(y["args"][j_]) and not _under_aff(yparents):
+                            bad_site = (cb, y)
+            out.add(fb["d"], "a sequence behind a reused node runs under affected(..)", (bad_site is None) if n_sites else None,
+                    c.loc((bad_site[1] if bad_site else x)["sp"]),
+                    "%s hands an old node to `%s`, whose old-node parser is followed by another parser of the sequence, outside affected(..): when "
+                    "that later parser fails (typing behind the second argument of `f(a, b + 1, c)`) the error is no `Affected` error, the list "
+                    "ends instead of re-parsing the element, and the tree differs from a fresh parse" % (bad_site[0]["d"] if bad_site else "-", fb["name"]),
+                    ("seqwrap",))
+    if n_seq == 0:
+        out.add("parser", "a sequence behind a reused node runs under affected(..)", True, "", "no old-node parser in front of another sequence element outside affected(..)", ("seqwrap",))
     scope = scope_plain
     # ---- (window): parsers decide where a node ends by peeking at the synchronisation sets; the longest token sequence one of
     # their elements inspects behind a node is the number of tokens behind a node whose change must make the node "affected"
